@@ -236,3 +236,21 @@ def run_clq(repo,seed,tier,procs=16):
          f"{len(seeds)} seeded offer sequences of 40 cycles: ready answers equal the table of the statement for the queue kind, dequeued messages are the accepted ones in order, occupancy never exceeds capacity")
   return [dict(key="zoo::cl_queues",ok=True,error=None,obligations=[],kind='bounded-standin',lines=None,ast_hash=None,info=None,time=sum(r['time'] for r in res),is_standin=True,
                standin=dict(evaluations=len(res),failures=fails,bound=bound,per_case={}))]
+
+def _methjob(a):
+  repo,seed,name,body=a
+  if repo not in sys.path: sys.path.insert(0,repo)
+  from zoo import methcheck
+  _no_graphviz(); t0=time.time()
+  try: v=methcheck.check(repo,name,body,seed)
+  except Exception as e: v=[f"the design could not be elaborated/simulated: {type(e).__name__}: {str(e)[:160]}"]
+  return dict(design=name,body=body,failed=v,time=time.time()-t0)
+
+def run_meth(repo,seed,tier,procs=16):
+  from zoo import methcheck
+  cs=methcheck.cases()
+  with Pool(min(procs,len(cs))) as p: res=p.map(_methjob,[(repo,seed,n,b) for n,b in cs],chunksize=2)
+  fails=[dict(args={'design':r['design']},failed=[m],custom=dict(kind='custom',module='zoo.replay',entry='replay_meth',design=r['design'],body=r['body'],seed=seed)) for r in res for m in r['failed'][:1]]
+  bound=(f"{len(cs)} designs of four update_once blocks each calling one method of a shared component (all blocking = greenlet-wrapped, all non-blocking, mixed), ordered only by a chain of method constraints or only by a chain of explicit block constraints, in three declaration orders; default and simple schedulers (4 tie-break seeds), three ticks: every block runs exactly once per tick, in the constrained order")
+  return [dict(key="zoo::method_constraints",ok=True,error=None,obligations=[],kind='bounded-standin',lines=None,ast_hash=None,info=None,time=sum(r['time'] for r in res),is_standin=True,
+               standin=dict(evaluations=len(res),failures=fails,bound=bound,per_case={}))]
